@@ -136,11 +136,11 @@ def run_shard(spec, seed, tier, stats):
         v = run_hypothesis(lambda scenario, schedule, policy: SE.check_bundled(scenario, schedule, policy, stats),
                            {'scenario': SE.bundled_scenario(spec['max_boards']), 'schedule': SE.SCHEDULE(), 'policy': SE.POLICY},
                            seed, spec['n'], tier == 'thorough')
-        return [v] if v else []
+        return [SE.reduce_violation(check_session, v)] if v else []
     v = run_hypothesis(lambda scenario, schedule: check_ref_session(scenario, schedule, stats),
                        {'scenario': SE.SCENARIO(1, spec['max_boards'], spec['play_prob']), 'schedule': SE.SCHEDULE()},
                        seed, spec['n'], tier == 'thorough')
-    return [v] if v else []
+    return [SE.reduce_violation(check_session, v)] if v else []
 
 
 def replay(rec):
